@@ -126,6 +126,24 @@ def shard_work(shard, nshards, payload):
                 if k % 30011 == 0:
                     t.sample({"context": ctx, "wrapper": wr, "skeleton": repr(sk)})
             k += 1
+    # one level deeper with simple conditions only, in the two contexts where the skeleton itself
+    # decides what is returned (bare value body, callback)
+    deep = kmax + 1
+    for sk in progs.skeletons(deep, conds=("c",)):
+        if sum(progs.size(x) for x in sk) != deep:
+            continue
+        for ctx, wr in (("value", "bare"), ("void", None)):
+            if k % nshards == shard:
+                judge(t, vd, f"deep/{k}", make_doc(sk, ctx, wr), {"context": ctx, "wrapper": wr, "skeleton": repr(sk)})
+            k += 1
+        # ... and with a trailing effect statement after the last compound statement (a join block
+        # that keeps statements)
+        if sk[-1][0] in ("I", "IE", "SW", "BL", "SH"):
+            sk2 = sk + [("A",)]
+            if k % nshards == shard:
+                judge(t, vd, f"deep+tail/{k}", make_doc(sk2, "value", "bare"),
+                      {"context": "value", "wrapper": "bare", "skeleton": repr(sk2)})
+            k += 1
     for i, (ctx, b) in enumerate(EXTRA):
         if i % nshards == shard:
             judge(t, vd, f"extra/{i}", DOC.format(binding=b), {"context": ctx, "extra": b})
@@ -142,7 +160,8 @@ def main(tier, t0):
         "rule": "programs = every statement skeleton up to the node bound x 4 contexts; non-trivial = an "
                 "accepted program whose emitted body (with >= 1 basic block) was recovered and checked",
         "exhaustive": True,
-        "bound_completed": {"skeleton_nodes": 5 if tier == "thorough" else 4, "contexts": [f"{a}/{b}" for a, b in VARIANTS]},
+        "bound_completed": {"skeleton_nodes": 5 if tier == "thorough" else 4, "contexts": [f"{a}/{b}" for a, b in VARIANTS],
+                            "extra_level_simple_conditions": (6 if tier == "thorough" else 5)},
         "accepted": c.get("accepted", 0), "rejected": c.get("rejected", 0),
         "bodies": c.get("bodies", 0), "blocks": c.get("blocks", 0), "edges": c.get("edges", 0),
         "reachable_blocks": c.get("reachable", 0),
